@@ -114,6 +114,14 @@ func VerifC01_Forest(cs int) {
 		}
 		open = append(open[:lv], node)
 	}
+	// the document holds what was put into it (records that share a pointer or are equal included)
+	roots := 0
+	for _, lv := range seq {
+		if lv == 0 {
+			roots++
+		}
+	}
+	VsAssert("forest-document-holds-every-added-record", len(doc.Nodes()) == roots)
 	vRoundtrip(doc, "forest")
 }
 
